@@ -42,6 +42,13 @@ def cases(tier):
     for names in (['A', 'B', 'C', 'D'], ['A', 'C'], ['B'], ['D', 'A', 'B']):
         for dflt in (None, 'kw', 'otherwise'):
             cs.append(('mux.enum', dict(w=2, names=names, default=dflt)))
+    for names in (['A', 'B'], ['A'], ['B']):
+        for dflt in (None, 'kw', 'otherwise'):
+            cs.append(('mux.enum', dict(w=2, names=names, default=dflt, sparse=True)))
+            cs.append(('mux.enum', dict(w=2, names=names, default=dflt, sparse=True, cw=3)))
+    for dflt in ('kw', 'otherwise', None):
+        cs.append(('mux.enum', dict(w=2, names=['A', 'C'], default=dflt, cw=3)))
+        cs.append(('mux.enum', dict(w=2, names=['A', 'B', 'C', 'D'], default=dflt, cw=3)))
     for n in range(1, 7 if tier == 'quick' else 10):
         cs.append(('mux.prioritized', dict(n=n, w=2)))
     for iw in (1, 2, 3):
